@@ -156,6 +156,7 @@ fn main() {
     let _ = OUT_PATH.set(out.clone());
     quiet_panics();
     dropshot::verif::install_memory_sink();
+    verif_harness::campaign_budget(&out);
     let seed = seed_from_env();
     let rt = tokio::runtime::Builder::new_multi_thread().worker_threads(4).enable_all().build().unwrap();
     rt.block_on(async {
